@@ -105,8 +105,19 @@ Proof. exact default_astral_refuted. Qed.
     still reachable in the rebuilt definition (types only reachable through AdditionalTypes that
     are neither unions nor objects with interfaces are dropped; no document can tell).  That step
     needs the validator's model (C04); here it is checked by validating generated documents
-    against both schemas with the real validator. *)
-Theorem C10_rebuild_same_verdicts : forall S F r,
+    against both schemas with the real validator.
+
+    FULL STATEMENT, proved only in part:
+      forall S F D, (hypotheses below) -> introspect (print_default S) S F = IntroOk r ->
+      rebuild (map_defaults dflt_text r) = Some R ->
+      (validate R {} D = [] <-> validate S F D = []).
+    Proved: R and the visible part of S are the same definition for validation (below).  Missing:
+    (a) [validate] itself — the validator is C04's model, not part of this development — and the
+    lemma that it only looks at a definition through [canon] and through the types reachable in
+    it; (b) validating against S under F is validating against [erase S F] (C13's view/erase
+    theorem).  Both steps are covered by the correspondence check only: 30 generated documents
+    per rebuilt schema are given to the real graphql.ParseAndValidate on both schemas. *)
+Theorem C10_rebuild_same_verdicts_partial : forall S F r,
   depth_ok S = true -> gating_coherent S F = true -> interfaces_declared_once S = true -> locations_known S = true ->
   refs_defined S = true -> gating_nested S = true -> roots_visible S F = true ->
   builtins_consistent S = true -> kinds_ok S = true -> scalars_accept_all S = true -> defaults_denote S ->
@@ -156,7 +167,7 @@ Print Assumptions C10_introspect_describes.
 Print Assumptions C10_introspect_refs_resolve.
 Print Assumptions C10_default_roundtrip_partial.
 Print Assumptions C10_default_astral_refuted.
-Print Assumptions C10_rebuild_same_verdicts.
+Print Assumptions C10_rebuild_same_verdicts_partial.
 Print Assumptions C10_rebuild_picky_scalar_refuted.
 Print Assumptions C10_clone_same_definition.
 Print Assumptions C10_clone_introspects_same.
